@@ -40,6 +40,14 @@ pub struct MonState {
     pub retires:         u64,
     pub retire_reasons:  [u64; 3],
     pub oog_at:          Vec<u32>,
+    pub retire_gas:      Vec<(u32, usize)>,
+    pub thread_base:     Vec<usize>,
+    pub thread_first:    Vec<Option<usize>>,
+    pub thread_acc:      Vec<usize>,
+    pub max_gas_accounted: usize,
+    pub stop_site:       Option<&'static str>,
+    pub stop_instance_alive: bool,
+    pub polls_after_stop_same_instance: u64,
     pub op_errors:       Vec<(u32, String, bool)>,
     pub stored_errors:   Vec<(u32, String)>,
     pub loops:           BTreeMap<&'static str, LoopStat>,
@@ -77,6 +85,14 @@ impl MonState {
             retires: 0,
             retire_reasons: [0; 3],
             oog_at: Vec::new(),
+            retire_gas: Vec::new(),
+            thread_base: vec![0],
+            thread_first: vec![None],
+            thread_acc: vec![0],
+            max_gas_accounted: 0,
+            stop_site: None,
+            stop_instance_alive: false,
+            polls_after_stop_same_instance: 0,
             op_errors: Vec::new(),
             stored_errors: Vec::new(),
             loops: BTreeMap::new(),
@@ -116,8 +132,16 @@ impl MonState {
         let n = self.polls;
         self.polls += 1;
         if let Some(k) = self.stop_at {
+            if n == k {
+                self.stop_site = self.last_site;
+                self.stop_instance_alive = true;
+            }
             if n > k {
                 self.polls_after_stop += 1;
+                if self.stop_instance_alive && self.stop_site == self.last_site {
+                    // the very loop instance that was told to stop is polling again
+                    self.polls_after_stop_same_instance += 1;
+                }
             }
         }
         if let Some(site) = self.last_site {
@@ -157,6 +181,10 @@ impl MonState {
             "loops": loops,
             "polls": self.polls,
             "polls_after_stop": self.polls_after_stop,
+            "polls_after_stop_same_instance": self.polls_after_stop_same_instance,
+            "stop_site": self.stop_site,
+            "max_gas_accounted": self.max_gas_accounted,
+            "retire_gas": self.retire_gas.iter().map(|(ip, g)| json!([ip, g])).collect::<Vec<_>>(),
             "round_count": self.round_count,
             "rounds": self.rounds.iter().map(|(t, p)| json!([t, p])).collect::<Vec<_>>(),
             "fold_calls": self.fold_calls,
@@ -188,6 +216,17 @@ impl Monitor for DriverMonitor {
                 if gas > s.max_gas_before {
                     s.max_gas_before = gas;
                 }
+                // independent gas accounting: what the thread inherited at its fork (by our own books) plus what
+                // it has consumed since its first step
+                let ti = s.thread_now as usize;
+                if ti < s.thread_first.len() {
+                    let first = *s.thread_first[ti].get_or_insert(gas);
+                    let acc = s.thread_base[ti].saturating_add(gas.saturating_sub(first));
+                    s.thread_acc[ti] = acc;
+                    if acc > s.max_gas_accounted {
+                        s.max_gas_accounted = acc;
+                    }
+                }
                 let t = s.thread_now;
                 s.tr(|| format!("S{t}:{ip}:{gas}:{visits}"));
             }
@@ -205,11 +244,15 @@ impl Monitor for DriverMonitor {
             }
             Event::Retire {
                 ip,
+                gas,
                 at_limit,
                 out_of_gas,
                 killed,
             } => {
                 s.retires += 1;
+                if s.retire_gas.len() < 20_000 {
+                    s.retire_gas.push((ip, gas));
+                }
                 if at_limit {
                     s.retire_reasons[0] += 1;
                 }
@@ -229,11 +272,19 @@ impl Monitor for DriverMonitor {
             Event::Fork { from, to } => {
                 s.forks += 1;
                 s.threads_created += 1;
+                let parent = s.thread_now as usize;
+                let inherited = s.thread_acc.get(parent).copied().unwrap_or(0);
+                s.thread_base.push(inherited);
+                s.thread_first.push(None);
+                s.thread_acc.push(inherited);
                 *s.forks_to.entry(to).or_insert(0) += 1;
                 s.tr(|| format!("F{from}:{to}"));
             }
             Event::LoopIter { site, index } => {
                 s.last_site = Some(site);
+                if index == 0 && s.stop_site == Some(site) {
+                    s.stop_instance_alive = false;
+                }
                 let st = s.loops.entry(site).or_default();
                 if index == 0 {
                     st.instances += 1;
